@@ -25,11 +25,11 @@ type module struct {
 	parser  datasource.PropertyConverter
 	updater datasource.PropertyUpdater
 	clear   func() error
-	inForce func() []interface{}                 // rule values reported by the module's GetRules
+	inForce func() []interface{}                            // rule values reported by the module's GetRules
 	elems   func(v interface{}) ([]interface{}, bool, bool) // decoded property -> elements (nil or *Rule), isNilSlice, typeOK
-	valid   func(r interface{}) bool             // validity oracle for a decoded *Rule
-	genRule func(r *rng.R, fault bool) []kv      // one rule object as ordered key/value pairs
-	fault   bool                                 // supports loader fault injection through a custom generator
+	valid   func(r interface{}) bool                        // validity oracle for a decoded *Rule
+	genRule func(r *rng.R, fault bool) []kv                 // one rule object as ordered key/value pairs
+	fault   bool                                            // supports loader fault injection through a custom generator
 }
 
 type kv struct{ K, V string }
@@ -46,11 +46,11 @@ var (
 
 type stubBreaker struct{ r *cb.Rule }
 
-func (s *stubBreaker) BoundRule() *cb.Rule               { return s.r }
-func (s *stubBreaker) BoundStat() interface{}            { return nil }
-func (s *stubBreaker) TryPass(*base.EntryContext) bool   { return true }
-func (s *stubBreaker) CurrentState() cb.State            { return cb.Closed }
-func (s *stubBreaker) OnRequestComplete(uint64, error)   {}
+func (s *stubBreaker) BoundRule() *cb.Rule             { return s.r }
+func (s *stubBreaker) BoundStat() interface{}          { return nil }
+func (s *stubBreaker) TryPass(*base.EntryContext) bool { return true }
+func (s *stubBreaker) CurrentState() cb.State          { return cb.Closed }
+func (s *stubBreaker) OnRequestComplete(uint64, error) {}
 
 type stubHotspot struct {
 	r *hotspot.Rule
